@@ -29,9 +29,16 @@ def vary(rng, t, next_id, depth=3):
     """A value for the declaration t: fitting, deeper, too shallow, permuted, list<->tuple."""
     r = rng.random()
     if t[0] == "L":
-        if r < 0.6:
+        if r < 0.45:
             next_id[0] += 1
             return ["L", next_id[0]]
+        if r < 0.7:
+            # a container with exactly one leaf, or an empty one: the whole container belongs to this node
+            k = rng.choice(["list", "tuple", "dict"])
+            if rng.random() < 0.3:
+                return [k, []]
+            next_id[0] += 1
+            return [k, [["L", next_id[0]]]] if k != "dict" else ["dict", [[rng.choice(KEYS), ["L", next_id[0]]]]]
         return gen_tree(rng, 2, next_id)                       # deeper than declared: fine
     if r < 0.08:
         next_id[0] += 1
@@ -96,7 +103,7 @@ def run(out, tier, seed, proof):
         if (saves == "None") != (not pre):
             out.disagreement("save_returns inconsistent", {"case": c})
     # end-to-end programs: return annotations with nested declarations
-    np_ = 24 if tier == "quick" else 200
+    np_ = 64 if tier == "quick" else 600
     progs = []
     for _ in range(np_):
         nid = [0]
@@ -131,9 +138,9 @@ def run(out, tier, seed, proof):
                     out.violation("a leaf of the returned value was stored in the wrong node", {"case": c, "stored": got, "expected": want})
     # keyword arguments: nested containers of values / paths through three declaration forms
     kws = []
-    for _ in range(12 if tier == "quick" else 100):
+    for _ in range(24 if tier == "quick" else 200):
         args = []
-        for j, form in enumerate(rng.sample(["python", "path_default", "kwargs"], rng.randint(1, 3))):
+        for j, form in enumerate(rng.sample(["python", "path_default", "kwargs", "python_nohash", "mixed_default"], rng.randint(1, 3))):
             nid = [10 * (j + 1)]
             t = gen_tree(rng, rng.randint(1, 3), nid, none_ok=False)
             if not leaves_of(t):
@@ -151,8 +158,19 @@ def run(out, tier, seed, proof):
         if r.get("exit") != 0 or r.get("kwargs") != want:
             out.disagreement("keyword arguments differ from tree_map(load, declaration)", {"case": c, "impl": r, "expected": want})
             if r.get("exit") == 0:
-                out.violation("a task parameter did not receive the declared values in the declared structure", {"case": c, "received": r.get("kwargs"), "expected": want})
-    out.coverage["programs"] = len(flat_progs) + len(kres)
+                nohash = any(f in ("python_nohash", "mixed_default") for _, f, _ in c["args"]) and "OBJ" in str(r.get("kwargs"))
+                out.violation("a task parameter did not receive the declared values in the declared structure",
+                              {"case": c, "received": r.get("kwargs"), "expected": want}, finding_matchers=("F19",) if nohash else ())
+    # one kwargs dict object shared by several @task calls: every task keeps its own defaults
+    shared = run_impl_worker("impl_tree.py", {"shared_kwargs": [{"n": rng.randint(2, 4), "base": rng.randint(1, 50)} for _ in range(3 if tier == "quick" else 20)]}, timeout=1800)["shared_kwargs"]
+    for r in shared:
+        out.case({"shared_kwargs": r.get("case")})
+        if r.get("exit") != 0 or r.get("got") != r.get("want"):
+            out.disagreement("tasks sharing one kwargs dict did not receive their own declared values", r)
+            # the programs are valid: wrong values and a refused build are both failures of the property
+            out.violation("a task parameter received a value declared for another task" if r.get("exit") == 0 else
+                          "a valid program whose tasks share a kwargs dict could not be built (declared values were mixed up)", r)
+    out.coverage["programs"] = len(flat_progs) + len(kres) + len(shared)
     out.sample(cases[0]); out.sample({"program": flat_progs[0] if flat_progs else None})
 
 
